@@ -18,6 +18,10 @@ from pycoin.symbols.bch import network as BCH
 from pycoin.symbols.btc import network as BTC
 from pycoin.symbols.btg import network as BTG
 from pycoin.symbols.ltc import network as LTC
+from pycoin.symbols.grs import network as GRSNET
+from pycoin.symbols.grsrt import network as GRSRT
+from pycoin.symbols.tgrs import network as TGRS
+from pycoin.symbols.xtn import network as XTN
 
 from gen import subproc
 
@@ -25,8 +29,11 @@ PROPERTY = "C20"
 COIN = 10**8
 # per-coin MAX_MONEY as the property states it: 21,000,000 coins; "Groestlcoin differs" (105,000,000 GRS)
 MAX_MONEY = {"BTC": 21000000 * COIN, "LTC": 21000000 * COIN, "BCH": 21000000 * COIN, "BTG": 21000000 * COIN,
-             "GRS": 105000000 * COIN}
-CLASSES = {"BTC": BTC.tx, "LTC": LTC.tx, "BCH": BCH.tx, "BTG": BTG.tx, "GRS": GrsTx}
+             "GRS": 105000000 * COIN,
+             # the same coins as their networks hand the class out (network.tx), incl. the test networks
+             "XTN": 21000000 * COIN, "GRS.net": 105000000 * COIN, "TGRS": 105000000 * COIN, "GRSRT": 105000000 * COIN}
+CLASSES = {"BTC": BTC.tx, "LTC": LTC.tx, "BCH": BCH.tx, "BTG": BTG.tx, "GRS": GrsTx,
+           "XTN": XTN.tx, "GRS.net": GRSNET.tx, "TGRS": TGRS.tx, "GRSRT": GRSRT.tx}
 MAX_SIZE = 1000000
 ZERO = b"\0" * 32
 NULL_INDEX = 0xFFFFFFFF
@@ -207,7 +214,7 @@ def _boundary_labels(coin, m, info):
         for name, b in (("0", 0), ("1", 1), ("MAX-1", mx - 1), ("MAX", mx), ("MAX+1", mx + 1), ("2^63", 2**63), ("2^64-1", 2**64 - 1), ("-1", -1)):
             if v == b:
                 out.add("value=" + name)
-        if coin == "GRS" and 21000000 * COIN < v <= mx:
+        if mx > 21000000 * COIN and 21000000 * COIN < v <= mx:
             out.add("value:grs-between-21M-and-105M")
         if 0 <= v <= mx:
             prev = tot
@@ -422,7 +429,7 @@ def s_check():
                        (3, c_ffff_alone), (14, c_planted), (6, c_size), (10, c_free), (3, c_straddle)])
         return tx.map(lambda t: {"coin": coin, "tx": t})
     built = {coin: build(coin) for coin in MAX_MONEY}       # built once; drawing a coin must not rebuild the strategy tree
-    return st.one_of(*[built[c] for c in ("BTC", "BTC", "LTC", "BCH", "BTG", "GRS", "GRS")])
+    return st.one_of(*[built[c] for c in ("BTC", "BTC", "LTC", "BCH", "BTG", "GRS", "GRS", "XTN", "GRS.net", "TGRS", "GRSRT")])
 
 
 def txgen_xin_json(k):
